@@ -1,8 +1,11 @@
 import ParryModel.C09.DriverA
+import ParryModel.C09.DriverB
 import ParryModel.C09.Model5
 /-!
 # C09 protocol handlers, part D (round fu5): `SimdAabb::transform_by` with a different isometry in every lane,
-`BoundingSphere::{transform_by, loosened, tightened}`, `Aabb::tightened`.
+`BoundingSphere::{transform_by, loosened, tightened}`, `Aabb::tightened`; histories of `scaled` on TriMesh / Polyline /
+HeightField (2-D and 3-D), box read through `dyn Shape::compute_local_aabb` (oracle: exact support values of the parts
+scaled by the product of the scale vectors — containment and tightness).
 
 Oracles (exact `Rat`, independent of the model): (simd_transform_by) for every lane the images of the centre and the
 eight corners under that lane's isometry lie in the returned lane box, and every face of the lane box is touched by a
@@ -18,6 +21,16 @@ def spherePts (c : V3 Rat) (r : Rat) : List (V3 Rat) :=
    ⟨c.x + r * 3 / 5, c.y + r * 4 / 5, c.z⟩, ⟨c.x, c.y - r * 3 / 5, c.z + r * 4 / 5⟩, ⟨c.x + r * 2 / 3, c.y - r * 1 / 3, c.z + r * 2 / 3⟩]
 
 def eqTol (a b : Rat) : Bool := leTol a b tolDefault && leTol b a tolDefault
+
+/-- model: `.scaled(s₁)….scaled(sₖ)` then `compute_local_aabb()` through `dyn Shape` -/
+def Comp3.histAabb (ss : List (V3 Float)) : Comp3 Float → Option (Aabb3 Float)
+  | .heightfield nr nc hs s => (Comp3.heightfield nr nc hs s).localAabb.map fun b => (heightfieldHist3 b s ss).1
+  | .compound _ => none
+  | c => c.localAabb.map (·.scaledHist ss)
+def Comp2.histAabb (ss : List (V2 Float)) : Comp2 Float → Option (Aabb2 Float)
+  | .heightfield hs s => (Comp2.heightfield hs s).localAabb.map fun b => (heightfieldHist2 b s ss).1
+  | .compound _ => none
+  | c => c.localAabb.map (·.scaledHist ss)
 
 def handlerD (fn : String) : Option Handler :=
   match fn with
@@ -74,6 +87,23 @@ def handlerD (fn : String) : Option Handler :=
             if !ok then "fail face-not-moved-by-amount" else
             -- (valid result) every corner of the result is in the box
             if (List.range 3).all (fun i => R.mins.get i ≤ R.maxs.get i) then allIn3 x (corners3 R) else "pass"
+        | none => "skip bad-args" }
+  | "co3_hist_aabb" => some {
+      model := fun a => run (do let c ← pcomp3; let ss ← plist pv3; pure (optS faabb3 (c.histAabb ss))) a
+      oracle := fun a o => match run (do let c ← pcomp3; let ss ← plist pv3; pure (c, ss)) a with
+        | some (c, ss) => withOut poaabb3 o fun b =>
+            -- the shape after the history = the original parts scaled by the component-wise product of the scale vectors
+            let tot : V3 Rat := ss.foldl (fun acc s => acc.cmul (q3 s)) ⟨1, 1, 1⟩
+            let neg := isHeightfieldNeg3 c || (match c with | .heightfield .. => ss.any (fun s => s.x < 0 || s.y < 0 || s.z < 0) | _ => false)
+            tagNeg neg (boxVsParts3 (c.parts.map fun (s, d) => (scaleShape3 tot s, d)) b true)
+        | none => "skip bad-args" }
+  | "co2_hist_aabb" => some {
+      model := fun a => run (do let c ← pcomp2; let ss ← plist pv2; pure (optS faabb2 (c.histAabb ss))) a
+      oracle := fun a o => match run (do let c ← pcomp2; let ss ← plist pv2; pure (c, ss)) a with
+        | some (c, ss) => withOut poaabb2 o fun b =>
+            let tot : V2 Rat := ss.foldl (fun acc s => acc.cmul (q2 s)) ⟨1, 1⟩
+            let neg := isHeightfieldNeg2 c || (match c with | .heightfield .. => ss.any (fun s => s.x < 0 || s.y < 0) | _ => false)
+            tagNeg neg (boxVsParts2 (c.parts.map fun (s, d) => (scaleShape2 tot s, d)) b true)
         | none => "skip bad-args" }
   | _ => none
 
